@@ -1,4 +1,504 @@
 import FqModel.Proto
-/-! driver for C13 (stub — replaced by the property's own driver) -/
-open FqModel.Proto
-def main : IO Unit := run (fun _ _ => "BADOP driver-stub")
+import FqModel.Total
+/-! driver for C13 — "every function fq adds is total over jq values"
+
+  `call <name>/<arity> <V input> <V arg>*` TAB `<class>`
+        class = ok <n results> [<V first result>] | err | halt | panic:<frame> | panic@force:<frame>
+              | crash:<frame> | resource:timeout | resource:hang | resource:mem | resource:skipped
+        verdict: (1) the property predicate on the observation alone — a panic / crash / memory
+                 exhaustion is PROPFAIL (KNOWN for the two documented defect classes);
+                 (2) for the functions modelled in FqModel/Total.lean the model's prediction
+                 (exact class, and value for bitops / radix / intdiv / index / slice) — DIVERGE.
+  `cast <int|float|big|bool|string|indent> <V>` TAB `ok <V>` | `fail` | `panic`     gojqx.CastFn
+  `opts <V>` TAB `ok depth=… …` | `err` | `panic`                                  OptionsFromValue
+
+  V is the token grammar of harness/cmd/c13/pool.go.
+-/
+open FqModel FqModel.Proto FqModel.Total
+
+/-! ### token parser -/
+
+def hexVal (c : Char) : Option Nat :=
+  if '0' ≤ c && c ≤ '9' then some (c.toNat - '0'.toNat)
+  else if 'a' ≤ c && c ≤ 'f' then some (c.toNat - 'a'.toNat + 10)
+  else none
+
+def hexBytes : List Char → Option (List Nat)
+  | [] => some []
+  | a :: b :: rest => do
+    let x ← hexVal a; let y ← hexVal b; let r ← hexBytes rest
+    pure ((x * 16 + y) :: r)
+  | _ => none
+
+def parseHexOrDash (s : String) : Option (List Nat) :=
+  if s == "-" then some [] else hexBytes s.toList
+
+def parseFlt (s : String) : Option Flt :=
+  if s == "nan" then some .nan
+  else if s == "+inf" then some (.inf false)
+  else if s == "-inf" then some (.inf true)
+  else match s.splitOn "/" with
+    | [n, d] => do
+      let n ← n.toInt?; let d ← d.toNat?
+      if d == 0 then none else pure (.fin n d)
+    | _ => none
+
+/-- scalar token (no parentheses inside) -/
+def parseScalar (t : String) : Option JV :=
+  if t == "null" then some .null
+  else if t == "true" then some (.bool true)
+  else if t == "false" then some (.bool false)
+  else if t.startsWith "n:" then (t.drop 2).toString.toInt?.map .int
+  else if t.startsWith "b:" then (t.drop 2).toString.toInt?.map .big
+  else if t.startsWith "f:" then (parseFlt (t.drop 2).toString).map .flt
+  else if t.startsWith "s:" then (parseHexOrDash (t.drop 2).toString).map .str
+  else if t.startsWith "S:" then
+    match (t.drop 2).toString.splitOn ":" with
+    | [n, hh] => do
+      let n ← n.toNat?; let b ← hexBytes hh.toList
+      match b with
+      | [x] => pure (.str (List.replicate (min n 4097) x))   -- content beyond 4096 bytes is never used
+      | _ => none
+    | _ => none
+  else if t.startsWith "bin:" then
+    match (t.drop 4).toString.splitOn "/" with
+    | [_, nb, u] => do
+      let nb ← nb.toNat?; let u ← u.toInt?
+      pure (.bin nb u)
+    | _ => none
+  else none
+
+mutual
+/-- returns the value and the rest of the input -/
+partial def parseV (cs : List Char) : Option (JV × List Char) :=
+  match cs with
+  | 'A' :: '(' :: rest => parseArr rest []
+  | 'O' :: '(' :: rest => parseObj rest []
+  | 'd' :: 'v' :: ':' :: rest =>
+    let (_, after) := rest.span (· != '=')
+    match after with
+    | '=' :: v => (parseV v).map fun (u, r) => (.dv u, r)
+    | _ => none
+  | _ =>
+    let (tok, rest) := cs.span (fun c => c != ';' && c != ')')
+    (parseScalar (String.ofList tok)).map fun v => (v, rest)
+
+partial def parseArr (cs : List Char) (acc : List JV) : Option (JV × List Char) :=
+  match cs with
+  | ')' :: rest => some (.arr acc.reverse, rest)
+  | _ =>
+    match parseV cs with
+    | some (v, ';' :: rest) => parseArr rest (v :: acc)
+    | some (v, ')' :: rest) => some (.arr (v :: acc).reverse, rest)
+    | _ => none
+
+partial def parseObj (cs : List Char) (acc : List (String × JV)) : Option (JV × List Char) :=
+  match cs with
+  | ')' :: rest => some (.obj acc.reverse, rest)
+  | _ =>
+    let (k, after) := cs.span (· != '=')
+    match after with
+    | '=' :: v =>
+      match parseV v with
+      | some (x, ';' :: rest) => parseObj rest ((String.ofList k, x) :: acc)
+      | some (x, ')' :: rest) => some (.obj ((String.ofList k, x) :: acc).reverse, rest)
+      | _ => none
+    | _ => none
+end
+
+def parseTok (s : String) : Option JV :=
+  match parseV s.toList with
+  | some (v, []) => some v
+  | _ => none
+
+/-- gojq normalises the numbers of every value that enters an evaluation (compiler.go:50-52
+    `normalizeNumbers`): a *big.Int that fits an int IS an int by the time a function sees it.
+    Small big integers still reach the functions, but only from inside (decode values: `dv:…=b:13`). -/
+partial def normalizeNumbers : JV → JV
+  | .big i => if inInt64 i then .int i else .big i
+  | .arr l => .arr (l.map normalizeNumbers)
+  | .obj kv => .obj (kv.map fun (k, v) => (k, normalizeNumbers v))
+  | v => v
+
+/-- bytes of a `bin:<hex>/…` token (the bits a binary holds) -/
+def binBytes (t : String) : Option (List Nat) :=
+  if t.startsWith "bin:" then
+    match (t.drop 4).toString.splitOn "/" with
+    | [h, _, _] => parseHexOrDash h
+    | _ => none
+  else none
+
+/-! ### rendering of model values in the harness' token form -/
+
+def hexDigit (n : Nat) : Char := if n < 10 then Char.ofNat (48 + n) else Char.ofNat (87 + n)
+def hexOfBytes (bs : List Nat) : String :=
+  if bs.isEmpty then "-" else String.ofList (bs.flatMap fun b => [hexDigit (b / 16), hexDigit (b % 16)])
+
+def natHex (n : Nat) : String := String.ofList (Nat.toDigits 16 n)
+
+def tokBig (i : Int) : String :=
+  let a := i.natAbs
+  let bl := if a == 0 then 0 else Nat.log2 a + 1
+  if bl > 2048 then
+    let sign := if i < 0 then "-1" else "1"
+    s!"B:{sign}:{bl}:{natHex (a >>> (bl - 64))}:{natHex (a % 2 ^ 64)}"
+  else s!"b:{i}"
+
+def tokFlt : Flt → String
+  | .nan => "f:nan"
+  | .inf false => "f:+inf"
+  | .inf true => "f:-inf"
+  | .fin n d => s!"f:{n}/{d}"
+
+def tokJV : JV → String
+  | .null => "null"
+  | .bool true => "true"
+  | .bool false => "false"
+  | .int i => s!"n:{i}"
+  | .big i => tokBig i
+  | .flt f => tokFlt f
+  | .str bs => s!"s:{hexOfBytes bs}"
+  | _ => "?"
+
+/-! ### predictions -/
+
+/-- what the model says about one call: the set of admissible classes and, when the class is
+    `ok` and the model computes the value, the token of the first result -/
+structure Pred where
+  classes : List String
+  value : Option String := none
+  valueByNumber : Bool := false      -- compare n:/b: tokens by numeric value only
+
+def noPanic : Pred := { classes := ["ok", "err", "halt", "resource"] }
+def exactCls (c : String) : Pred := { classes := [c] }
+
+def predOfOutcome (o : Outcome JV) : Pred :=
+  match o with
+  | .ok v => { classes := ["ok"], value := some (tokJV v) }
+  | .err _ => exactCls "err"
+  | .panic _ => exactCls "panic"
+  | .resource _ => exactCls "resource"
+
+/-- integers (int or big, also behind a decode value) -/
+def asInteger (v : JV) : Option Int :=
+  match toGoJQ v with
+  | .int i => some i
+  | .big i => some i
+  | _ => none
+
+def isNumber (v : JV) : Bool :=
+  match toGoJQ v with
+  | .int _ | .big _ | .flt _ => true
+  | _ => false
+
+def isZeroNumber (v : JV) : Bool :=
+  match toGoJQ v with
+  | .int i | .big i => i == 0
+  | .flt (.fin n _) => n == 0
+  | _ => false
+
+def numTok (i : Int) : String := if inInt64 i then s!"n:{i}" else tokBig i
+
+def radixFuel : Nat := 4000
+
+def predToRadix (c base : JV) : Pred :=
+  if !isNumber c then exactCls "err"
+  else if isZeroNumber c then { classes := ["ok"], value := some "s:30" }
+  else match asInteger c, asInteger base with
+    | some n, some b =>
+      match toRadix radixFuel n b with
+      | .ok (some s) => { classes := ["ok"], value := some s!"s:{hexOfBytes (s.toUTF8.toList.map (·.toNat))}" }
+      | .ok none => exactCls "resource"
+      | .err _ => exactCls "err"
+      | .panic _ => exactCls "panic"
+      | .resource _ => exactCls "resource"
+    | _, _ => noPanic
+
+def predFromRadix (c base : JV) : Pred :=
+  match c with          -- binaries and decode values take fq's binary-aware split: not modelled
+  | .str bs =>
+    if bs.isEmpty then { classes := ["ok"], value := some "n:0", valueByNumber := true }
+    else if bs.length > 4096 then noPanic
+    else if bs.all (· < 128) then
+      match asInteger base with
+      | some b =>
+        match fromRadix (bs.map Char.ofNat) b with
+        | .ok n => { classes := ["ok"], value := some (numTok n), valueByNumber := true }
+        | .err _ => exactCls "err"
+        | _ => exactCls "panic"
+      | none => noPanic
+    else noPanic
+  | .bin _ _ => noPanic
+  | .dv (.str _) => noPanic
+  | _ => exactCls "err"
+
+def predIntdiv (a b : JV) : Pred :=
+  match asInteger a, asInteger b with
+  | some x, some y =>
+    match intdiv x y with
+    | .ok n => { classes := ["ok"], value := some (numTok n), valueByNumber := true }
+    | .err _ => exactCls "err"
+    | _ => exactCls "panic"
+  | _, _ => noPanic
+
+def predToBits (c opts : JV) : Pred :=
+  match castToBitsOpts opts with
+  | none => exactCls "err"
+  | some o =>
+    match convertible c with
+    | some false => exactCls "err"
+    | some true => if o.unit == 0 then exactCls "panic" else noPanic
+    | none => if o.unit == 0 then { classes := ["err", "panic"] } else noPanic
+
+/-- `tobits($pad)` / `tobytes($pad)` = `_tobits({unit: 1|8, keep_range: false, pad_to_units: $pad})` -/
+def predToBitsPad (c pad : JV) : Pred :=
+  match fieldInt 0 (some pad) with
+  | none => exactCls "err"
+  | some _ => if convertible c == some false then exactCls "err" else noPanic
+
+def indentErrOr (dflt : Int) (opts : JV) (outOfRange : Int → Bool) : Pred :=
+  match castIndentOpts dflt opts with
+  | none => exactCls "err"
+  | some i => if outOfRange i then exactCls "err" else noPanic
+
+def predToTOML (c opts : JV) : Pred :=
+  match castIndentOpts 2 opts with
+  | none => exactCls "err"
+  | some i =>
+    -- the encoder is abstract: any non-panic outcome; the model fixes what precedes it
+    match toTOML (match c with | .null => true | _ => false) i (fun _ => .ok ()) with
+    | .err _ => exactCls "err"
+    | .panic _ => exactCls "panic"
+    | .resource _ => exactCls "resource"
+    | .ok _ => noPanic
+
+/-- to_xml: ToXMLOpts{Indent int; AttributePrefix string} -/
+def predToXML (c opts : JV) : Pred :=
+  let castOk : Option Int :=
+    match normScalar opts with
+    | .null => some 0
+    | .big _ => some 0
+    | .obj kv => if fieldStrOk (lookup kv "attribute_prefix") then fieldInt 0 (lookup kv "indent") else none
+    | _ => none
+  match castOk with
+  | none => exactCls "err"
+  | some i =>
+    let shapeOk := match toGoJQ c with | .obj _ | .arr _ | .null => true | _ => false
+    if !shapeOk then exactCls "err"
+    else match toXML true i (fun _ => .ok ()) with
+      | .err _ => exactCls "err"
+      | .panic _ => exactCls "panic"
+      | .resource _ => exactCls "resource"
+      | .ok _ => noPanic
+
+def predToJSON (opts : JV) : Pred := indentErrOr 0 opts (fun i => decide (i > maxIndent))
+def predToYAML (opts : JV) : Pred :=
+  match castIndentOpts 4 opts with
+  | none => exactCls "err"
+  | some i => match toYAML i with | .panic _ => exactCls "panic" | _ => noPanic
+
+/-- gojq toInt for an index / slice bound (func.go:2301): saturating -/
+def gojqToInt (v : JV) : Option Int :=
+  match toGoJQ v with
+  | .int i => some i
+  | .big i => some (if inInt64 i then i else if i > 0 then maxInt64 else minInt64)
+  | .flt _ => castInt v
+  | _ => none
+
+def bitsOfBytes (bs : List Nat) : Nat := bs.foldl (fun acc b => acc * 256 + b) 0
+
+def predIndex (ctok : String) (c i : JV) : Pred :=
+  match c, binBytes ctok, gojqToInt i with
+  | .bin nbits unit, some bytes, some ix =>
+    if unit ≤ 0 then noPanic else
+    match binIndex nbits unit ix with
+    | .ok none => { classes := ["ok"], value := some "null" }
+    | .ok (some (start, n)) =>
+      let total := bytes.length * 8
+      let all := bitsOfBytes bytes
+      let v := (all >>> (total - (start.toNat + n.toNat))) % 2 ^ n.toNat
+      { classes := ["ok"], value := some s!"b:{v}" }
+    | .err _ => exactCls "err"
+    | .panic _ => exactCls "panic"
+    | .resource _ => exactCls "resource"
+  | _, _, _ => noPanic
+
+def predSlice (c s e : JV) : Pred :=
+  let bound (v : JV) : Option (Option Int) :=       -- null = open end
+    match v with
+    | .null => some none
+    | _ => (gojqToInt v).map some
+  match c, bound s, bound e with
+  | .bin nbits unit, some s, some e =>
+    if unit ≤ 0 then noPanic else
+    let l := (nbits : Int).tdiv unit
+    match binSlice nbits unit (s.getD 0) (e.getD l) with
+    | .ok (_, n) => { classes := ["ok"], value := some s!"?binary[{n}/{unit}]" }
+    | .err _ => noPanic        -- the range is only checked when the slice is read
+    | .panic _ => exactCls "panic"
+    | .resource _ => exactCls "resource"
+  | _, _, _ => noPanic
+
+def modelled : List String :=
+  ["bnot/0", "bsl/2", "bsr/2", "band/2", "bor/2", "bxor/2", "to_radix/1", "from_radix/1", "_tobits/1",
+   "tobits/1", "tobytes/1", "_to_toml/1", "to_toml/1", "to_xml/1", "_to_json/1", "tojson/1", "_to_yaml/1",
+   "to_yaml/1", "intdiv/2", "@index/1", "@slice/2"]
+
+def predict (fn : String) (toks : List String) (vs : List JV) : Option Pred :=
+  match fn, vs with
+  | "bnot/0", [c] => some (predOfOutcome (bnot c))
+  | "bsl/2", [_, a, b] => some (predOfOutcome (bsl a b))
+  | "bsr/2", [_, a, b] => some (predOfOutcome (bsr a b))
+  | "band/2", [_, a, b] => some (predOfOutcome (bandF a b))
+  | "bor/2", [_, a, b] => some (predOfOutcome (borF a b))
+  | "bxor/2", [_, a, b] => some (predOfOutcome (bxorF a b))
+  | "to_radix/1", [c, b] => some (predToRadix c b)
+  | "from_radix/1", [c, b] => some (predFromRadix c b)
+  | "intdiv/2", [_, a, b] => some (predIntdiv a b)
+  | "_tobits/1", [c, o] => some (predToBits c o)
+  | "tobits/1", [c, p] => some (predToBitsPad c p)
+  | "tobytes/1", [c, p] => some (predToBitsPad c p)
+  | "_to_toml/1", [c, o] => some (predToTOML c o)
+  | "to_toml/1", [c, o] => some (predToTOML c o)
+  | "to_xml/1", [c, o] => some (predToXML c o)
+  | "_to_json/1", [_, o] => some (predToJSON o)
+  | "tojson/1", [_, o] => some (predToJSON o)
+  | "_to_yaml/1", [_, o] => some (predToYAML o)
+  | "to_yaml/1", [_, o] => some (predToYAML o)
+  | "@index/1", [c, i] => some (predIndex (toks.headD "") c i)
+  | "@slice/2", [c, s, e] => some (predSlice c s e)
+  | _, _ => none
+
+/-! ### observation classes -/
+
+def obsClass (obs : String) : Option String :=
+  let w := (words obs).headD ""
+  if w == "ok" then some "ok"
+  else if w == "err" then some "err"
+  else if w == "halt" then some "halt"
+  else if w.startsWith "panic:" || w.startsWith "panic@force:" then some "panic"
+  else if w.startsWith "crash:" then some "crash"
+  else if w == "resource:mem" then some "resource:mem"
+  else if w.startsWith "resource:" then some "resource"
+  else none
+
+/-- numeric value of an n:/b: token -/
+def tokNumber (t : String) : Option Int :=
+  if t.startsWith "n:" || t.startsWith "b:" then (t.drop 2).toString.toInt? else none
+
+def valueAgrees (p : Pred) (want got : String) : Bool :=
+  if want == got then true
+  else if p.valueByNumber then
+    match tokNumber want, tokNumber got with
+    | some a, some b => a == b
+    | _, _ => false
+  else false
+
+/-- known defect classes (known_findings.json): exactly these, nothing wider -/
+def knownClass (fn : String) (vs : List JV) (obs : String) : Option String :=
+  let w := (words obs).headD ""
+  if fn == "_tobits/1" && w == "panic:pkg/interp.(*Interp)._toBits" then
+    match vs with
+    | [_, o] => match castToBitsOpts o with
+      | some ⟨0, _⟩ => some "tobits-unit-zero"
+      | _ => none
+    | _ => none
+  else if (fn == "protobuf_widevine/0" || fn == "protobuf_widevine/1" || fn == "from_protobuf_widevine/0"
+        || fn == "from_protobuf_widevine/1") && w == "resource:mem" then some "protobuf-seek0-loop"
+  else if (fn == "tojson/1" || fn == "_to_json/1") && w == "resource:mem" then
+    match vs with
+    | [_, o] => match castIndentOpts 0 o with
+      | some i => if i < 0 then some "tojson-negative-indent-wrap" else none
+      | none => none
+    | _ => none
+  else none
+
+def hasHugeString (toks : List String) : Bool := toks.any (·.startsWith "S:")
+
+def callVerdict (fn : String) (toks : List String) (obs : String) : String :=
+  match toks.mapM parseTok with
+  | none => "BADOP token"
+  | some vs =>
+    let vs := vs.map normalizeNumbers
+    match obsClass obs with
+    | none => s!"BADOP observation {obs}"
+    | some cls =>
+      -- (2) model
+      let div : String :=
+        match predict fn toks vs with
+        | none => if modelled.contains fn then " ;DIVERGE model=unsupported-shape" else ""
+        | some p =>
+          let c := if cls == "resource:mem" then "resource" else if cls == "crash" then "panic" else cls
+          if !(p.classes.contains c) then
+            -- a slow evaluation of something the model answers instantly is tolerated only for
+            -- the 1 MiB string and for skipped cases
+            if c == "resource" && !(p.classes.contains "panic") && (hasHugeString toks || obs == "resource:skipped") then ""
+            else s!" ;DIVERGE model={" ".intercalate p.classes}{match p.value with | some v => " " ++ v | none => ""}"
+          else match p.value, c with
+            | some want, "ok" =>
+              match words obs with
+              | [_, "1", got] => if valueAgrees p want got then "" else s!" ;DIVERGE model=ok 1 {want}"
+              | _ => s!" ;DIVERGE model=ok 1 {want}"
+            | _, _ => ""
+      -- (1) the property predicate, on the observation alone
+      if cls == "panic" || cls == "crash" || cls == "resource:mem" then
+        match knownClass fn vs obs with
+        | some key => s!"KNOWN {key} {(words obs).headD ""}{div}"
+        | none => s!"PROPFAIL {(words obs).headD ""}{div}"
+      else if div.isEmpty then "OK" else (div.drop 2).toString
+
+/-! ### direct ops -/
+
+def optOk (o : Option String) : String := match o with | some s => "ok " ++ s | none => "fail"
+
+def castVerdict (kind tok obs : String) : String :=
+  match parseTok tok with
+  | none => "BADOP token"
+  | some v =>
+    if obs == "panic" then "PROPFAIL cast-panics" else
+    let model : Option String :=
+      match kind with
+      | "int" => some (optOk ((castInt v).map fun i => s!"n:{i}"))
+      | "big" => some (optOk ((castBig v).map fun i => tokBig i))
+      | "float" => some (optOk ((castFloat v).map tokFlt))
+      | "bool" => some (optOk ((castBool v).map fun b => if b then "true" else "false"))
+      | "string" => some (optOk ((castString v).map fun _ => "str"))
+      | "indent" => some (optOk ((castIndentOpts 2 v).map fun i => s!"n:{i}"))
+      | _ => none
+    match model with
+    | none => "BADOP cast-kind"
+    | some m => verdict m obs
+
+def optsVerdict (tok obs : String) : String :=
+  match parseTok tok with
+  | none => "BADOP token"
+  | some v =>
+    if obs == "panic" then "PROPFAIL OptionsFromValue-panics" else
+    let o := optionsFromValue v
+    -- the property of the clamps, evaluated on the implementation's numbers
+    let model := s!"ok depth={o.depth} array_truncate={o.arrayTruncate} string_truncate={o.stringTruncate} line_bytes={o.lineBytes} display_bytes={o.displayBytes} addrbase={o.addrbase} sizebase={o.sizebase}"
+    let isObj := match normScalar v with | .obj _ => true | _ => false
+    let hasBitsFormat := match normScalar v with | .obj kv => (lookup kv "bits_format").isSome | _ => false
+    if obs == "err" then
+      -- a non-object has no (valid) bits_format, an object may carry an invalid one
+      if !isObj || hasBitsFormat then "OK" else s!"DIVERGE model={model}"
+    else
+      let safe : Bool :=
+        match (words obs).filterMap (fun w => match w.splitOn "=" with | [k, n] => n.toInt?.map (fun i => (k, i)) | _ => none) with
+        | kvs =>
+          let get (k : String) : Int := ((kvs.find? (·.1 == k)).map (·.2)).getD (-1)
+          !(dump ⟨get "depth", get "array_truncate", get "string_truncate", get "line_bytes",
+            get "display_bytes", get "addrbase", get "sizebase"⟩ 12345).isPanic
+          && decide (get "depth" ≥ 0) && decide (get "array_truncate" ≥ 0) && decide (get "string_truncate" ≥ 0)
+          && decide (get "display_bytes" ≥ 0)
+      if !safe then s!"PROPFAIL options-not-clamped {obs}"
+      else verdict model obs
+
+def stepC13 (op obs : String) : String :=
+  match words op with
+  | "call" :: fn :: toks => if toks.isEmpty then "BADOP call" else callVerdict fn toks obs
+  | ["cast", kind, tok] => castVerdict kind tok obs
+  | ["opts", tok] => optsVerdict tok obs
+  | _ => "BADOP op"
+
+def main : IO Unit := run stepC13
